@@ -197,25 +197,82 @@ pub enum Via {
     F64,
 }
 
-/// Tolerance `u`: one ulp (generously: of the next binade) of the intermediate type at |x|.
-fn ulp_at(lit: &str, via: Via) -> Rat {
-    match via {
+/// Exact rational value of a finite double.
+pub fn rat_of_f64(f: f64) -> Rat {
+    let bits = f.to_bits();
+    let neg = bits >> 63 == 1;
+    let e = ((bits >> 52) & 0x7ff) as i32;
+    let frac = bits & ((1u64 << 52) - 1);
+    let (m, x) = if e == 0 { (frac, -1074) } else { (frac | (1u64 << 52), e - 1075) };
+    let mut r = Rat::pow2(x);
+    let mut mag = BigUint::from_u128(m as u128);
+    if x >= 0 {
+        mag.shl(x as u32);
+        r = Rat { num: BigInt::new(neg, mag), p10: 0, p2: 0 };
+    } else {
+        r.num = BigInt::new(neg, mag);
+    }
+    r
+}
+
+fn next_up64(f: f64) -> f64 {
+    if f == 0.0 {
+        return f64::from_bits(1);
+    }
+    let b = f.to_bits();
+    f64::from_bits(if f > 0.0 { b + 1 } else { b - 1 })
+}
+fn next_down64(f: f64) -> f64 {
+    -next_up64(-f)
+}
+fn next_up32(f: f32) -> f32 {
+    if f == 0.0 {
+        return f32::from_bits(1);
+    }
+    let b = f.to_bits();
+    f32::from_bits(if f > 0.0 { b + 1 } else { b - 1 })
+}
+fn next_down32(f: f32) -> f32 {
+    -next_up32(-f)
+}
+
+/// Tolerance `delta`: "exact up to the resolution of the intermediate float type" = the literal
+/// may be replaced by either of the two adjacent floats that bracket it (nothing if it is itself
+/// representable). Returns max(x - lo, hi - x).
+fn bracket_delta(lit: &str, via: Via, x: &Rat) -> Rat {
+    let (lo, hi): (f64, f64) = match via {
         Via::F64 => {
-            let f: f64 = lit.parse::<f64>().unwrap_or(0.0).abs();
-            if f == 0.0 || !f.is_finite() || f < f64::MIN_POSITIVE {
-                return Rat::pow2(-1074);
+            let f: f64 = lit.parse::<f64>().unwrap_or(0.0);
+            if !f.is_finite() {
+                return Rat::int(0);
             }
-            let e = ((f.to_bits() >> 52) & 0x7ff) as i32 - 1023;
-            Rat::pow2(e + 1 - 52)
+            match rat_of_f64(f).cmp(x) {
+                Ordering::Equal => return Rat::int(0),
+                Ordering::Less => (f, next_up64(f)),
+                Ordering::Greater => (next_down64(f), f),
+            }
         }
         Via::F32 => {
-            let f: f32 = lit.parse::<f32>().unwrap_or(0.0).abs();
-            if f == 0.0 || !f.is_finite() || f < f32::MIN_POSITIVE {
-                return Rat::pow2(-149);
+            let f: f32 = lit.parse::<f32>().unwrap_or(0.0);
+            if !f.is_finite() {
+                return Rat::int(0);
             }
-            let e = ((f.to_bits() >> 23) & 0xff) as i32 - 127;
-            Rat::pow2(e + 1 - 23)
+            match rat_of_f64(f as f64).cmp(x) {
+                Ordering::Equal => return Rat::int(0),
+                Ordering::Less => (f as f64, next_up32(f) as f64),
+                Ordering::Greater => (next_down32(f) as f64, f as f64),
+            }
         }
+    };
+    if !lo.is_finite() || !hi.is_finite() {
+        return Rat::int(0);
+    }
+    let a = x.sub(&rat_of_f64(lo));
+    let b = rat_of_f64(hi).sub(x);
+    if a.cmp(&b) == Ordering::Greater {
+        a
+    } else {
+        b
     }
 }
 
@@ -223,6 +280,7 @@ fn ulp_at(lit: &str, via: Via) -> Rat {
 #[derive(Clone, Debug)]
 pub struct IntOracle {
     x: Option<Rat>,
+    /// 1/2 + delta
     h: Rat,
     mag: Magnitude,
     neg: bool,
@@ -241,7 +299,7 @@ impl IntOracle {
                 let h = if d.nr1 {
                     Rat::int(0)
                 } else {
-                    Rat::pow2(-1).add(&ulp_at(s.trim_start_matches('+'), via))
+                    Rat::pow2(-1).add(&bracket_delta(s.trim_start_matches('+'), via, &x))
                 };
                 (Some(x), h)
             }
